@@ -5,6 +5,7 @@ import subprocess
 from lib import cfg
 from rules import common
 
+CRATES = ("agdb",)
 EXPLANATION = (
     "Static analysis close to a proof by the type system plus one lock rule: (R23a) the field-type closure of "
     "DbImpl<Store> over every storage type contains no interior mutability (non-Freeze leaf) other than "
